@@ -249,6 +249,29 @@ twin('c11-consumer-twin', 'C11', 'mulgrids.py', "                        if isin
 bad('c03-justtest', 'C03', 'JUSTTEST', 'mulgrids.py', "blkname[0:3] == blkname[0:3].strip().rjust(3)", "blkname[0:3] == blkname[0:3].rjust(3)")
 twin('c03-justtest-twin', 'C03', 'mulgrids.py', "blkname[0:3] == blkname[0:3].strip().rjust(3)", "blkname[:3].strip().rjust(3) == blkname[:3]")
 
+# ---- rules added after the sixth round of seeded changes
+bad('c03-loopcarry', 'C03', 'LOOPCARRY', 'mulgrids.py',
+    ["        line = padstring(geo.readline())\n        while line.strip():\n            name, bottom, centre = geo.parse_string(line, 'layer')",
+     "            if centre is not None: centre *= self.unit_scale\n            else:\n                nlayers = len(self.layer)\n                if nlayers > 1:\n                    centre = 0.5 * (newlayer.bottom +\n                                    self.layerlist[nlayers - 2].bottom)\n                else: centre = newlayer.bottom\n            newlayer.centre = centre"],
+    ["        line = padstring(geo.readline())\n        lcentre = None\n        while line.strip():\n            name, bottom, centre = geo.parse_string(line, 'layer')",
+     "            if centre is not None: lcentre = centre * self.unit_scale\n            newlayer.centre = lcentre"])
+twin('c03-loopcarry-twin', 'C03', 'mulgrids.py', "            if centre is not None: centre *= self.unit_scale\n            else:\n                nlayers = len(self.layer)\n                if nlayers > 1:\n                    centre = 0.5 * (newlayer.bottom +\n                                    self.layerlist[nlayers - 2].bottom)\n                else: centre = newlayer.bottom\n",
+    "            if centre is None:\n                nlayers = len(self.layer)\n                if nlayers > 1:\n                    centre = 0.5 * (newlayer.bottom +\n                                    self.layerlist[nlayers - 2].bottom)\n                else: centre = newlayer.bottom\n            else: centre *= self.unit_scale\n")
+bad('c03-setterorder', 'C03', 'SETTERORDER', 'mulgrids.py', "        self._block_order = block_order\n        self.set_block_order_int()", "        self.set_block_order_int()\n        self._block_order = block_order")
+bad('c10-namein', 'C10', 'NAMEIN', 'mulgrids.py', "        if nod.name not in self.node:\n            self.nodelist.append(nod)", "        if nod.name not in self.nodelist:\n            self.nodelist.append(nod)")
+twin('c10-namein-twin', 'C10', 'mulgrids.py', "        if nod.name not in self.node:\n            self.nodelist.append(nod)", "        if nod not in self.nodelist and nod.name not in self.node:\n            self.nodelist.append(nod)")
+bad('c02-strread', 'C02', 'STRREAD', 'fixed_format_file.py', "default_read_str = value_error_none(lambda x: x.rstrip('\\n'))", "default_read_str = value_error_none(lambda x: x.strip())")
+twin('c02-strread-twin', 'C02', 'fixed_format_file.py', "default_read_str = value_error_none(lambda x: x.rstrip('\\n'))", "default_read_str = value_error_none(lambda x: x.rstrip('\\r\\n'))")
+bad('c06-timepair', 'C06', 'TIMEPAIR', 't2listing.py', "[short_times, all_times][len(h) == self.num_fulltimes]", "[short_times, all_times][len(hist) == self.num_fulltimes]")
+bad('c17-justarg', 'C17', 'JUSTARG', 'mulgrids.py', "                    name, colnumber = self.new_column_name(colnumber, justfn, chars, spaces)\n                    nodes = []", "                    name, colnumber = self.new_column_name(colnumber, chars = chars, spaces = spaces)\n                    nodes = []")
+bad('c12-sortframe', 'C12', 'PARAM', 'geometry.py', "    d = np.array([norm(c - line[0]) for c in crossings])", "    d = np.array([norm(c - l2) for c in crossings])")
+bad('c19-mutdefault-alias', 'C19', 'MUTDEFAULT', 't2data.py', "        col_generator = top_generator + bottom_generator\n", "        col_generator = top_generator\n        col_generator.extend(bottom_generator)\n")
+bad('c19-corrpred', 'C19', 'TOTAL', 'mulgrids.py', "                if self.column[sourcecol].surface <= self.layer[sourcelayer].bottom:", "                if geo.column[destcol].surface <= self.layer[sourcelayer].bottom:")
+bad('c15-residual-bounds', 'C15', 'GUARD', 't2thermo.py', "        def f(t): return sat(t[0]) - p", "        def f(t): return sat(t[0], bounds = True) - p")
+bad('c20-threshold', 'C20', 'ONCE', 't2data.py', "            if 0. < blk.volume < atmos_volume:\n                jsondata['rock']", "            if 0. < blk.volume < 1.e25:\n                jsondata['rock']")
+bad('c04-dircos-norm', 'C04', 'SUMDIST', 't2grids.py', "            dircos = np.dot(d, tilt) / np.linalg.norm(d)", "            dircos = np.dot(d, tilt) / np.linalg.norm(tilt2)")
+bad('c11-cover-const', 'C11', 'COVER', 'mulgrids.py', "                    if all([concol in bisect_edge_columns for concol in con.column]):", "                    if all([bisect_edge_columns for concol in con.column]):")
+
 
 def _run_one(entry):
     i, pid, rule, kind, fname, old, new = entry
